@@ -2,13 +2,13 @@ package transaction
 
 import (
 	"fmt"
-	"reflect"
 	"time"
 
 	"github.com/go-logr/logr"
 	"github.com/google/uuid"
 	"github.com/ovn-org/libovsdb/cache"
 	"github.com/ovn-org/libovsdb/database"
+	"github.com/ovn-org/libovsdb/mapper"
 	"github.com/ovn-org/libovsdb/model"
 	"github.com/ovn-org/libovsdb/ovsdb"
 	"github.com/ovn-org/libovsdb/updates"
@@ -500,72 +500,90 @@ func (t *Transaction) Wait(table string, timeout *int, where []ovsdb.Condition, 
 	if realTable == nil {
 		return ovsdb.ResultFromError(&ovsdb.NotSupported{})
 	}
-	model, err := dbModel.NewModel(table)
-	if err != nil {
-		return ovsdb.ResultFromError(err)
+	// the expected rows in native form
+	expected := make([]*mapper.Info, 0, len(rows))
+	for i := range rows {
+		model, err := dbModel.NewModel(table)
+		if err != nil {
+			return ovsdb.ResultFromError(err)
+		}
+		info, err := dbModel.NewModelInfo(model)
+		if err != nil {
+			return ovsdb.ResultFromError(err)
+		}
+		err = dbModel.Mapper.GetRowData(&rows[i], info)
+		if err != nil {
+			return ovsdb.ResultFromError(err)
+		}
+		expected = append(expected, info)
+	}
+	if columns == nil {
+		for column := range realTable.Columns {
+			columns = append(columns, column)
+		}
+	}
+	// sameRow returns whether a row holds the values of the k-th expected row
+	// in the columns to consider; a column the expected row does not provide
+	// is not compared
+	sameRow := func(info *mapper.Info, k int) (bool, error) {
+		for _, column := range columns {
+			if _, ok := rows[k][column]; !ok {
+				continue
+			}
+			x, err := expected[k].FieldByColumn(column)
+			if err != nil {
+				return false, err
+			}
+			y, err := info.FieldByColumn(column)
+			if err != nil {
+				return false, err
+			}
+			equal, err := ovsdb.ConditionEqual.Evaluate(y, x)
+			if err != nil || !equal {
+				return false, err
+			}
+		}
+		return true, nil
 	}
 
 Loop:
 	for {
-		var filteredRows []ovsdb.Row
 		foundRowModels, err := t.rowsFromTransactionCacheAndDatabase(table, where)
 		if err != nil {
 			return ovsdb.ResultFromError(err)
 		}
 
-		m := dbModel.Mapper
+		// the selected rows equal the expected rows if every selected row is
+		// one of the expected rows and every expected row is among them
+		equal := true
+		seen := make([]bool, len(rows))
 		for _, rowModel := range foundRowModels {
 			info, err := dbModel.NewModelInfo(rowModel)
 			if err != nil {
 				return ovsdb.ResultFromError(err)
 			}
-
-			foundMatch := true
-			for _, column := range columns {
-				columnSchema := info.Metadata.TableSchema.Column(column)
-				for _, r := range rows {
-					i, err := dbModel.NewModelInfo(model)
-					if err != nil {
-						return ovsdb.ResultFromError(err)
-					}
-					err = dbModel.Mapper.GetRowData(&r, i)
-					if err != nil {
-						return ovsdb.ResultFromError(err)
-					}
-					x, err := i.FieldByColumn(column)
-					if err != nil {
-						return ovsdb.ResultFromError(err)
-					}
-
-					// check to see if field value is default for given rows
-					// if it is default (not provided) we shouldn't try to compare
-					// for equality
-					if ovsdb.IsDefaultValue(columnSchema, x) {
-						continue
-					}
-					y, err := info.FieldByColumn(column)
-					if err != nil {
-						return ovsdb.ResultFromError(err)
-					}
-					if !reflect.DeepEqual(x, y) {
-						foundMatch = false
-					}
-				}
-			}
-
-			if foundMatch {
-				resultRow, err := m.NewRow(info)
+			foundMatch := false
+			for k := range rows {
+				same, err := sameRow(info, k)
 				if err != nil {
 					return ovsdb.ResultFromError(err)
 				}
-				filteredRows = append(filteredRows, resultRow)
+				if same {
+					seen[k] = true
+					foundMatch = true
+				}
 			}
-
+			if !foundMatch {
+				equal = false
+			}
+		}
+		for k := range seen {
+			if !seen[k] {
+				equal = false
+			}
 		}
 
-		if until == "==" && len(filteredRows) == len(rows) {
-			return ovsdb.OperationResult{}
-		} else if until == "!=" && len(filteredRows) != len(rows) {
+		if (until == "==") == equal {
 			return ovsdb.OperationResult{}
 		}
 
